@@ -8,8 +8,10 @@ emit('C09', '''C09 — Established connections survive forged and replayed traff
    PARTIAL: the end-to-end statement "payload keeps flowing both ways during and after the attack"
    is decided by the executed correspondence (py/props/c09.py re-injects every captured datagram
    at several offsets from three source choices and then runs a 400 s probe phase).''',
- ['Base','Nonce','Replay','ReplayProofs','Core','CoreProofs','Conn','PeerCrypto','Node','NodeProofs','Rotation2','Rotation2Proofs'],
- [('forged_no_trace','NodeProofs.v','unverifiable_sequence','forged datagrams: no trace, from any claimed source'),
+ ['Base','Nonce','Replay','ReplayProofs','Core','CoreProofs','Conn','PeerCrypto','Node','NodeProofs','Rotation2','Rotation2Proofs','NodeInfo','Table','SurviveProofs'],
+ [('established_peer_survives','SurviveProofs.v','established_peer_survives','HEADLINE: whatever datagram arrives from whatever claimed source, every established peer stays a peer, unless the datagram OPENED (genuine seal under the connection key and admitted by the replay window: C02/C03) as a CLOSE message of that very peer'),
+  ('close_only','SurviveProofs.v','handle_result_keeps','after the crypto layer a peer entry is removed only by a CLOSE message, and only the sender\'s'),
+  ('forged_no_trace','NodeProofs.v','unverifiable_sequence','forged datagrams: no trace, from any claimed source'),
   ('replayed_init_keeps_peer','NodeProofs.v','replayed_init_keeps_peer','a replayed (genuine, verifying) handshake message from the address of an established peer: peer entry, routes and own addresses unchanged, only replies are emitted'),
   ('pending_reap_keeps_peer','NodeProofs.v','fold_adel_pending_peers','reaping the pending handshakes such replays create never touches peers or routes'),
   ('replayed_data_dies','ReplayProofs.v','dies_in_two_ticks','a replayed data datagram is dropped once two housekeeping ticks passed (C03)'),
